@@ -5,6 +5,7 @@ Exit codes: 0 held / 1 violation (VIOLATION line printed) / 2 undecided / 3 chec
 """
 import json
 import os
+import re
 import sys
 import time
 import traceback
@@ -66,6 +67,10 @@ def load_known():
             if line and not line.startswith("#"):
                 out.append(json.loads(line))
     return out
+
+
+def _path_free(name):
+    return re.sub(r"(exit=(?:return|raise:[A-Za-z_.]+))#\d+", r"\1", re.sub(r"~\d+", "", name))
 
 
 class Report:
@@ -215,7 +220,10 @@ class Report:
         old_sha, new_sha = (b.get("contracts") or {}).get(key), self.cur_sha.get(key)
         if not old_sha or not new_sha or old_sha == new_sha:
             return False
-        return rec["name"] in set(b.get("discharged") or ())
+        # names are compared modulo the path ordinals (`~n` duplicate counter, `#k` exit ordinal): the same post-condition / invariant
+        # conjunct of the same case on a path that did not exist before (the change added a branch) is the same named obligation
+        base = {_path_free(n) for n in (b.get("discharged") or ())}
+        return _path_free(rec["name"]) in base
 
     def _is_known(self, name, native=None):
         """A recorded finding suppresses exactly what it lists: an obligation by name, a bounded witness by its exact id
